@@ -92,11 +92,18 @@ func (t *Collection) closeCollection() { // Just "close" is a keyword.
 	t.rootLock.Lock()
 	r := t.root
 	t.root = nil
+	// Only when nobody else holds this version (no snapshot, reader,
+	// replacement collection or older chained version) are all of its
+	// nodes ours to recycle.
+	sole := r != nil && r.refs == 1 && !t.store.readOnly
 	t.rootLock.Unlock()
-	t.reclaimMarkUpdate(r.root, nil, &r.reclaimMark)
-	if r != nil {
-		t.rootDecRef(r)
+	if r == nil {
+		return
 	}
+	if sole {
+		t.reclaimMarkUpdate(r.root, nil, &r.reclaimMark)
+	}
+	t.rootDecRef(r)
 }
 
 // GetItem from the collection by key
